@@ -55,11 +55,17 @@ def scorer(method, out_dtype=None):
             s = self._s(X)
             return cast(np.c_[1 - s, s])
 
-    class Decision(_Base):
+    class _Decoy(_Base):
+        # an estimator usually offers several scoring methods; only the configured one may be consulted, at fit and at predict time
+        def predict_proba(self, X):
+            s = self._s(X)
+            return np.c_[s, 1 - s]
+
+    class Decision(_Decoy):
         def decision_function(self, X):
             return cast(self._s(X))
 
-    class Predict(_Base):
+    class Predict(_Decoy):
         def predict(self, X):
             return cast(self._s(X))
     return {"predict_proba": Proba, "decision_function": Decision, "predict": Predict}[method]()
